@@ -68,3 +68,24 @@ bool w_eval_boundary(type_suppression::insertion_range::boundary_sptr* b, void* 
     (*b, abigail::ir::class_decl_sptr(static_cast<abigail::ir::class_decl*>(fake_class), abigail::sptr_utils::noop_deleter()), *v);
 }
 }
+extern "C" {
+// a real variable_suppression configured through the real setters; cfg[i] says whether property i is given
+variable_suppression* w_vs_new(const bool* cfg, unsigned change_kind)
+{
+  variable_suppression* s = new variable_suppression;
+  s->set_change_kind(static_cast<variable_suppression::change_kind>(change_kind));
+  if (cfg[0]) s->set_name("f");
+  if (cfg[1]) s->set_name_regex_str("p(");
+  if (cfg[2]) s->set_name_not_regex_str("n(");
+  if (cfg[3]) s->set_symbol_name("f");
+  if (cfg[4]) s->set_symbol_name_regex_str("s(");
+  if (cfg[5]) s->set_symbol_name_not_regex_str("t(");
+  if (cfg[6]) s->set_symbol_version("1");
+  if (cfg[7]) s->set_symbol_version_regex_str("v(");
+  if (cfg[8]) s->set_type_name("int");
+  if (cfg[9]) s->set_type_name_regex_str("r(");
+  return s;
+}
+bool w_vs_suppresses(const variable_suppression* s, const abigail::ir::var_decl* v, unsigned k)
+{ return s->suppresses_variable(v, static_cast<variable_suppression::change_kind>(k), abigail::comparison::diff_context_sptr()); }
+}
